@@ -120,6 +120,8 @@ pub struct FaultW {
     pub plan: Plan,
     pub calls: usize,
     pub fired: usize,
+    /// the deviations that were actually delivered to the operation
+    pub delivered: Vec<Dev>,
     pub budget: usize,
     pub hung: bool,
     failed: Option<Dev>,
@@ -131,6 +133,7 @@ impl FaultW {
             plan,
             calls: 0,
             fired: 0,
+            delivered: vec![],
             budget,
             hung: false,
             failed: None,
@@ -157,15 +160,18 @@ impl Write for FaultW {
         match self.step()? {
             Some(Dev::Short1) if !buf.is_empty() => {
                 self.fired += 1;
+                self.delivered.push(Dev::Short1);
                 self.accepted.push(buf[0]);
                 Ok(1)
             }
             Some(Dev::Zero) if !buf.is_empty() => {
                 self.fired += 1;
+                self.delivered.push(Dev::Zero);
                 Ok(0)
             }
             Some(d @ (Dev::Interrupted | Dev::ErrOther | Dev::ErrBrokenPipe | Dev::ErrUnexpectedEof)) => {
                 self.fired += 1;
+                self.delivered.push(d);
                 if !d.benign() {
                     self.failed = Some(d);
                 }
@@ -183,6 +189,7 @@ impl Write for FaultW {
         match self.step()? {
             Some(d @ (Dev::ErrOther | Dev::ErrBrokenPipe | Dev::ErrUnexpectedEof)) => {
                 self.fired += 1;
+                self.delivered.push(d);
                 self.failed = Some(d);
                 Err(d.err())
             }
@@ -197,6 +204,8 @@ pub struct FaultR<'a> {
     pub plan: Plan,
     pub calls: usize,
     pub fired: usize,
+    /// the deviations that were actually delivered to the operation
+    pub delivered: Vec<Dev>,
     pub budget: usize,
     pub hung: bool,
     failed: Option<Dev>,
@@ -209,6 +218,7 @@ impl<'a> FaultR<'a> {
             plan,
             calls: 0,
             fired: 0,
+            delivered: vec![],
             budget,
             hung: false,
             failed: None,
@@ -233,16 +243,19 @@ impl Read for FaultR<'_> {
         match dev {
             Some(Dev::Short1) if !buf.is_empty() && avail > 0 => {
                 self.fired += 1;
+                self.delivered.push(Dev::Short1);
                 buf[0] = self.data[self.pos];
                 self.pos += 1;
                 Ok(1)
             }
             Some(Dev::Zero) if !buf.is_empty() && avail > 0 => {
                 self.fired += 1;
+                self.delivered.push(Dev::Zero);
                 Ok(0)
             }
             Some(d @ (Dev::Interrupted | Dev::ErrOther | Dev::ErrBrokenPipe | Dev::ErrUnexpectedEof)) => {
                 self.fired += 1;
+                self.delivered.push(d);
                 if !d.benign() {
                     self.failed = Some(d);
                 }
